@@ -19,6 +19,8 @@ git apply seeded_patch.diff
 cp seeded_patch.diff $OUT/patch.diff; cp tests/seeded_demo.rs $OUT/seeded_demo.rs; cp seeded_meta.json $OUT/agent_meta.json
 cd /repo && git status --short | grep -v '^??' && { echo "/repo dirty"; exit 2; }
 git -C /repo apply $OUT/patch.diff || { echo "patch does not apply to /repo HEAD"; exit 3; }
+# evidence files describe the unchanged tree: keep them out of the mutated runs
+EVBAK=$(mktemp -d /tmp/evidence-bak.XXXX); cp -a /verif/evidence/. $EVBAK/
 for c in "$@"; do
   tier=quick; id=$c
   case $c in *:thorough) tier=thorough; id=${c%%:*};; esac
@@ -26,4 +28,5 @@ for c in "$@"; do
   (cd /verif && ./check $id --tier $tier > $OUT/check_${id}_$tier.log 2>&1; echo "rc=$?"; grep -E "VIOLATION|KNOWN" $OUT/check_${id}_$tier.log | head -5)
 done
 git -C /repo checkout -- .
+cp -a $EVBAK/. /verif/evidence/; rm -rf $EVBAK
 git -C /repo status --short | head
